@@ -95,16 +95,17 @@ int main(int argc, char** argv) {
 				nontrivial(N > 1 && ntr > 1); return; }
 #if C15_D >= 2  // (the lazy range does not compile for 1-D inputs: its iterator dereferences to a 0-dimensional extensions object; a compile-time limit, not a run-time behaviour)
 			if(mode == 5) {  // array constructed from / assigned the lazy range: extents of the input, elements of the direct DFT along exactly the masked dimensions, input untouched
-				int const form = int(g.below(4)); static char const* FN[] = {"construct", "assign", "dft_forward/backward", "assign-to-same-extents"}; op((std::string("lazy-range:") + FN[form] + ":" + LK[li % NLK]).c_str()); count("mode:lazy-range"); count(std::string("lazy-form:") + FN[form]);
-				int const d = sign == -1 ? multi::fft::forward : multi::fft::backward; multi::array<C, D> out;
+				int const form = int(g.below(5)); static char const* FN[] = {"construct", "assign", "dft_forward/backward", "assign-to-same-extents", "dft_all/idft_all"}; op((std::string("lazy-range:") + FN[form] + ":" + LK[li % NLK]).c_str()); count("mode:lazy-range"); count(std::string("lazy-form:") + FN[form]);
+				int const d = sign == -1 ? multi::fft::forward : multi::fft::backward; multi::array<C, D> out; std::vector<C> yall; std::vector<C> const* want = &y;
 				switch(form) {
 				case 0: { multi::array<C, D> o2 = multi::fft::dft(which, in, d); out = std::move(o2); break; }
 				case 1: { out = multi::fft::dft(which, in, d); break; }
 				case 2: { if(sign == -1) { multi::array<C, D> o2 = multi::fft::dft_forward(which, in); out = std::move(o2); } else { multi::array<C, D> o2 = multi::fft::dft_backward(which, std::move(in)); out = std::move(o2); } break; }
-				default: { multi::array<C, D> o2(make_extensions<D>(n), OUTFILL); o2 = multi::fft::dft(which, in, d); out = std::move(o2); break; }
+				case 3: { multi::array<C, D> o2(make_extensions<D>(n), OUTFILL); o2 = multi::fft::dft(which, in, d); out = std::move(o2); break; }
+				default: { std::array<bool, std::size_t(D)> all{}; all.fill(true); yall = ref_dft(x, n, all, sign); want = &yall; if(sign == -1) { multi::array<C, D> o2 = multi::fft::dft_all(in); out = std::move(o2); } else { multi::array<C, D> o2 = multi::fft::idft_all(in); out = std::move(o2); } break; }  // every dimension, forward / backward
 				}
 				if(tuple_to_vec(out.sizes()) != n) violation(K + "extents", "the array built from the lazy range has extents " + join(tuple_to_vec(out.sizes()), "x") + ", the input has " + join(n, "x"));
-				else { double err = 0; for(L k = 0; k < N; ++k) err = std::max(err, std::abs(out.data_elements()[k] - y[std::size_t(k)])); if(err > tol) violation(K + "wrong", "the array built from the lazy range differs from the direct DFT along the masked dimensions by " + std::to_string(err)); }
+				else { double err = 0; for(L k = 0; k < N; ++k) err = std::max(err, std::abs(out.data_elements()[k] - (*want)[std::size_t(k)])); if(err > tol) violation(K + "wrong", "the array built from the lazy range differs from the direct DFT along the masked dimensions by " + std::to_string(err)); }
 				if(!(RI.s == isnap)) violation(K + "input-modified", "the input of a lazy range was modified");
 				nontrivial(N > 1 && ntr > 1); return; }
 #endif
